@@ -44,6 +44,7 @@ RECURSIVE PathMinW(_, _, _)
 PathMinW(c, p, i) == IF i >= Len(p) THEN 0 ELSE Min({W(c, e) : e \in {x \in E(c) : Src(c, x) = p[i] /\ Dst(c, x) = p[i + 1]}}) + PathMinW(c, p, i + 1)
 DistMapOk(c, s, dm) ==      \* dm: sequence over nodes of distance or -1 (unreachable)
   LET d == Dist(c, s) IN \A v \in Nodes(c) : dm[v] = (IF d[v] < INF THEN d[v] ELSE -1)
+DistOrNone(c, s, t) == IF Dist(c, s)[t] < INF THEN Dist(c, s)[t] ELSE 0 - 1
 PathOk(c, s, t, p) == IF Dist(c, s)[t] >= INF THEN p = <<>>
                       ELSE p # <<>> /\ p[1] = s /\ p[Len(p)] = t /\ PathReal(c, p) /\ PathMinW(c, p, 1) = Dist(c, s)[t]
 \* Bellman-Ford with signed weights: a negative cycle is reachable iff an n-th round still improves something
@@ -127,6 +128,8 @@ Parts(c) ==
      <<"dijkstra_path", \A s \in Nodes(c) : \A t \in Nodes(c) : PathOk(c, s, t, c.paths[s][t])>>,
      <<"floyd_warshall_path", \A s \in Nodes(c) : \A t \in Nodes(c) : PathOk(c, s, t, c.floyd_paths[s][t])>>,
      <<"bellman_ford_path", \A s \in Nodes(c) : \A t \in Nodes(c) : PathOk(c, s, t, c.bellman_paths[s][t])>>,
+     <<"astar_inconsistent_heuristic", \A s \in Nodes(c) : \A t \in Nodes(c) : PathOk(c, s, t, c.astar_h[s][t].p) /\ c.astar_h[s][t].d = DistOrNone(c, s, t)>>,
+     <<"astar_distance", \A s \in Nodes(c) : \A t \in Nodes(c) : c.astar_d[s][t] = DistOrNone(c, s, t)>>,
      <<"astar", \A s \in Nodes(c) : \A t \in Nodes(c) : PathOk(c, s, t, c.astar[s][t])>>,
      <<"connected_components", WccOk(c, c.wcc)>>,
      <<"strongly_connected_components", SccOk(c, c.scc)>>,
